@@ -258,6 +258,26 @@ func orderedBefore(a, b *Event) bool {
 	if sa == nil || sb == nil || sa.Parent() != sb.Parent() {
 		return false
 	}
+	if sa == sb && i < len(ca) && i < len(cb) && ca[i].MC != nil && cb[i].MC != nil {
+		// two steps of one first-error list: in list order
+		if ci, ok := sa.(ssa.CallInstruction); ok {
+			args := ci.Common().Args
+			if len(args) > 0 {
+				ia, ib := -1, -1
+				for k, e := range variadicElems(args[len(args)-1]) {
+					if e == ssa.Value(ca[i].MC) {
+						ia = k
+					}
+					if e == ssa.Value(cb[i].MC) {
+						ib = k
+					}
+				}
+				if ia >= 0 && ib >= 0 {
+					return ia < ib
+				}
+			}
+		}
+	}
 	if sa.Block() == sb.Block() {
 		return instrIndex(sa) < instrIndex(sb)
 	}
